@@ -17,6 +17,7 @@ def load():
     from contracts import common
     import contracts.checkers, contracts.leaf, contracts.refs, contracts.objects, contracts.meta  # noqa
     import contracts.init  # noqa
+    import contracts.rollback  # noqa
     return Engine, DirLoopLib, common
 
 
